@@ -73,7 +73,7 @@ def expand(history, maxnest, depth, case):
 
 def run(ctx):
     quick = ctx.tier == "quick"
-    k, maxnest, depth = (2, 3, 6) if quick else (3, 4, 8)
+    k, maxnest, depth = (2, 3, 6) if quick else (4, 4, 9)
     case = common.rot(["lower", "upper", "mixed"], ctx.seed + 2)[0]
     jobs = [(cmd, doc, a) for cmd in ("add_test", "ct_add_test", "ct_add_section") for doc in (1, 0)
             for a in arg_lists(k)]
